@@ -15,6 +15,9 @@ S2C: TLC places the limits RELATIVE to each wire (Gen_HttpReader / GenL cfg): he
      segmentations; the sum of delivered body bytes is part of the compared projection.
 C2S: random request streams against random small limits, validated by TLC (Trace_HttpReader with the
      BodyBounded invariant evaluated at every step).
+
+Binding demonstrated during development: on the tree without fix F36 the gzip/override cases diverge (48 behaviours); the seeded
+off-by-one `total_size >= max_body_size` (M1) is reported by the S2C limit cases (notes/httpr.md).
 """
 import random
 
